@@ -104,8 +104,10 @@ partial def destructAnds (g : MVarId) : MetaM MVarId := g.withContext do
 
 elab "destruct_ands" : tactic => liftMetaTactic fun g => do return [← destructAnds g]
 
-/-- closes a side goal of a call (a precondition) or a final postcondition -/
-macro "hoare_leaf" : tactic => `(tactic|
+/-- closes a side goal of a call (a precondition) or a final postcondition; extended by `macro_rules` where the
+    invariant of a development is known -/
+syntax "hoare_leaf" : tactic
+macro_rules | `(tactic| hoare_leaf) => `(tactic|
   (first
     | assumption
     | trivial
@@ -114,6 +116,12 @@ macro "hoare_leaf" : tactic => `(tactic|
     | (split <;> solve_by_elim (maxDepth := 2))
     | (simp_all; done)
     | (simp_all; omega)))
+
+/-- the step over `modify f` / `set v`; extended by `macro_rules` to forget the new state except for an invariant -/
+syntax "hoare_modify" : tactic
+macro_rules | `(tactic| hoare_modify) => `(tactic| apply wpE_modify)
+syntax "hoare_set" : tactic
+macro_rules | `(tactic| hoare_set) => `(tactic| apply wpE_set)
 
 /-- One step: looks at the head of the program in a goal `wpE prog Q E s`. -/
 elab "hoare_step" : tactic => withMainContext do
@@ -136,20 +144,20 @@ elab "hoare_step" : tactic => withMainContext do
     else if act.isAppOf ``MonadState.get || act.isAppOf ``getThe || act.isAppOf ``MonadStateOf.get then
       evalTactic (← `(tactic| apply wpE_get))
     else if act.isAppOf ``modify then
-      evalTactic (← `(tactic| apply wpE_modify))
+      evalTactic (← `(tactic| hoare_modify))
     else if act.isAppOf ``MonadStateOf.set || act.isAppOf ``MonadState.set || act.isAppOf ``set then
-      evalTactic (← `(tactic| apply wpE_set))
+      evalTactic (← `(tactic| hoare_set))
     else if act.isAppOf ``ite || act.isAppOf ``dite then
       evalTactic (← `(tactic| split))
     else if (← isMatcherApp act) then
       evalTactic (← `(tactic| split))
     else if fn.isConst || fn.isFVar || fn.isProj then
       evalTactic (← `(tactic| first
-        | (refine wpE_pureCallR (by solve_by_elim (maxDepth := 5) using $(mkIdent `hspec)) ?k
+        | (refine wpE_pureCallR (by solve_by_elim (maxDepth := 10) (transparency := .reducible) using $(mkIdent `hspec)) ?k
            case' k => intro _ _)
-        | (refine wpE_pureCall (by solve_by_elim (maxDepth := 5) using $(mkIdent `hspec)) ?k
+        | (refine wpE_pureCall (by solve_by_elim (maxDepth := 10) (transparency := .reducible) using $(mkIdent `hspec)) ?k
            case' k => intro _)
-        | (refine wpE_mono (by solve_by_elim (maxDepth := 5) using $(mkIdent `hspec)) ?k
+        | (refine wpE_mono (by solve_by_elim (maxDepth := 10) (transparency := .reducible) using $(mkIdent `hspec)) ?k
            case' k => intro _ _ _; destruct_ands)))
     else
       throwError "hoare_step: unrecognised program {act}"
